@@ -14,8 +14,10 @@ EVERY Lock/RLock reachable from the instance (instance attributes whatever their
 attributes, module globals; re-scanned at every call) is wrapped - DetectingLock on single-thread histories;
 rv.sched.SchedLock on 2-3-thread workloads explored with a pb(1) sweep + random/PCT schedules (a lock-order
 deadlock is "no runnable thread"); a wait-for-graph lock in the free-running 4-thread stress, which adds
-bytecode-level preemption. A schedule that still ends in the wall-clock watchdog aborts its workload (INCONCLUSIVE). An icontract invariant keeps len(_queue) <= max_queue_size on every
-public-method boundary.
+bytecode-level preemption. A schedule that still ends in the wall-clock watchdog aborts its workload (INCONCLUSIVE). An icontract invariant keeps the queue length (public statistic, and the
+container found by shape) <= max_queue_size on every public-method boundary. No private attribute / method name of the classes under test is used:
+the queue container and the digester table are found by shape (rv.c13_rig.queue_snapshot / _digester_table), sizes and counters come from the
+public getters, locks are wrapped whatever they are called.
 """
 import re
 import sys
@@ -48,6 +50,11 @@ ASSUMPTIONS = ["digesters / on_toxic raise only Exception subclasses and do not 
                "digest(0) is treated by the code as digest(None); not judged",
                "an 'ingested item' is one call of Lysosome.ingest: the same Waste object ingested k times is k items (occurrences indistinguishable, judged by count: "
                "queued occurrences + digester invocations + expired == k); wastes that compare equal but are distinct objects are distinct items",
+               "identity-level accounting reads the queue from the instance attribute(s) found by shape (list / tuple / deque / dict, on the instance or one level down in "
+               "a helper object, whose elements are or wrap Waste objects), whatever they are called; its length is compared with get_queue_status / get_statistics at every "
+               "audit; if the getters report queued items and no such container exists the run is INCONCLUSIVE, never a verdict",
+               "digesters are wrapped in the table found by shape (instance attribute mapping every WasteType to a callable); without such a table the wrappers are passed "
+               "through the public constructor and the shipped digesters run on a one-shot donor instance (public ingest + digest of that one waste)",
                "locks are threading.Lock/RLock instances reachable from the instance, its operon_ai helper objects, its classes or the lysosome module; a hang inside any "
                "other blocking primitive is only seen by the wall-clock watchdog (INCONCLUSIVE, never a verdict)"]
 
@@ -85,11 +92,12 @@ class InvariantBroken(BaseException):
 
 _INV = {"n": 0}
 _Monitored = None
+_PUBLIC_STATS = [None]      # the class's own public get_statistics (called unwrapped from inside the invariant: no contract re-entry)
 
 
 def _queue_within_capacity(self):
     _INV["n"] += 1
-    return self.max_queue_size < 2 or len(self._queue) <= self.max_queue_size
+    return self.max_queue_size < 2 or c13_rig.queue_len(self, _PUBLIC_STATS[0]) <= self.max_queue_size
 
 
 def monitored_class():
@@ -100,8 +108,9 @@ def monitored_class():
 
         class MonitoredLysosome(Lysosome):
             pass
+        _PUBLIC_STATS[0] = Lysosome.get_statistics
         _Monitored = icontract.invariant(_queue_within_capacity, error=lambda self: InvariantBroken(
-            "queue holds %d items, max_queue_size=%d" % (len(self._queue), self.max_queue_size)))(MonitoredLysosome)
+            "queue holds %d items, max_queue_size=%d" % (c13_rig.queue_len(self, _PUBLIC_STATS[0]), self.max_queue_size)))(MonitoredLysosome)
     return _Monitored
 
 
@@ -189,6 +198,9 @@ def flush(ctx, rig, witness):
 
 
 def harvest(ctx, rig):
+    if rig.stats.get("queue_container_not_found"):
+        ctx.inconclusive("the public getters report queued items but no attribute of the instance has the shape of a waste container: "
+                         "identity-level accounting not applicable to this representation (not a verdict)")
     for k, v in rig.stats.items():
         ctx.count(k, v)
     rig.stats.clear()
@@ -208,7 +220,7 @@ def drive(ctx, n, cfg, prefill, seq, sample=False):
         try:
             for i, op in enumerate(list(prefill) + list(seq)):
                 kind = op[0]
-                qlen0 = len(rig.lys._queue)
+                qlen0 = rig.qlen()
                 try:
                     rig.apply(op)
                 except WouldHang as e:
@@ -243,7 +255,7 @@ def drive(ctx, n, cfg, prefill, seq, sample=False):
                     ctx.violation("queue-over-capacity", "%s: %s" % (kind, e), witness)
                     return
                 c = rig.last_ctx
-                fp.append((kind, tuple((e[2][0], e[2][1]) for e in c["events"] if e[0] == "dig"), min(len(rig.lys._queue), 3)))
+                fp.append((kind, tuple((e[2][0], e[2][1]) for e in c["events"] if e[0] == "dig"), min(rig.qlen(), 3)))
                 if flush(ctx, rig, witness):
                     return
             if nontrivial:
@@ -380,13 +392,12 @@ def run_schedule(ctx, desc, policy, label, order):
             running = {}
             info = {"last0": 0, "over": None}
             mx = cfg["max"]
-            lys = rig.lys
 
             def hook(sc, me, fn, line):
                 if me == 0:
                     info["last0"] = sc.step
-                if len(lys._queue) > mx and info["over"] is None and not rig.any_locked():
-                    info["over"] = "queue holds %d items (max_queue_size=%d) at %s:%d while no lock is held" % (len(lys._queue), mx, fn, line)
+                if info["over"] is None and rig.qlen() > mx and not rig.any_locked():
+                    info["over"] = "queue holds %d items (max_queue_size=%d) at %s:%d while no lock is held" % (rig.qlen(), mx, fn, line)
 
             def mk(i, ops):
                 def run():
